@@ -75,6 +75,11 @@ pub mod verif_fail {
         FAIL.with(|f| f.borrow_mut().clear());
     }
 
+    /// Injections not yet consumed.
+    pub fn pending() -> Vec<RawFd> {
+        FAIL.with(|f| f.borrow().clone())
+    }
+
     pub(super) fn take(fd: RawFd) -> bool {
         FAIL.with(|f| {
             let mut v = f.borrow_mut();
